@@ -333,6 +333,8 @@ def run(prop, tier, vseed):
             for a, f, e in pool.imap_unordered(work, seeds, chunksize=1):
                 nev += a
                 failures.extend(f)
+                if len(failures) > 20000:
+                    failures = report.compact(failures)
                 eps |= e
         n2, f2 = cross_document(tier)
         nev += n2
